@@ -95,7 +95,7 @@ var lgTable = []lgEntry{
 	{Rule: "L3", Func: "tensor.(*Dense).Eq", Site: "$r.array.Eq(", Goal: "$r.DataOrder().HasSameOrder(%ot.DataOrder())", Props: []string{"C16"}, Why: "the array comparison pairs the two backing arrays position by position: a row-major and a column-major tensor with the same contents differ in storage (finding 62)"},
 	{Rule: "L1", Func: "tensor.(*Dense).CopyTo", Site: "copyDense($other, $r)", Goal: "(($r.viewOf == 0) && ($other.viewOf == 0))", Props: []string{"C19", "C04"}, Why: "the storage-level copy fills the destination's whole backing array: neither side may be a view (a view's array is a window of its parent's)"},
 	{Rule: "L2", Func: "tensor.(*Dense).Inner", Site: ".Inner($r, $other)", Goal: "($other.DataSize() == $r.len())", Props: []string{"C09"}, Why: "the BLAS dot product walks both backing arrays with one length: the storage lengths must agree, not the logical sizes"},
-	{Rule: "L3", Func: "tensor.(*Dense).TensorMul", Site: "Dot(%doT, %doOther)", Goal: "%doOther.DataOrder().HasSameOrder(%doT.DataOrder())", OrStep: "= copyDenseIter(", Props: []string{"C09", "C16"}, Why: "both operands are flattened by Reshape, which follows each tensor's own data order: they must share one, or the second is copied into the first's order (finding 68b)"},
+	{Rule: "L3", Func: "tensor.(*Dense).TensorMul", Site: "Dot(%doT, %doOther)", Goal: "%doOther.DataOrder().HasSameOrder(%doT.DataOrder())", OrStep: "orderOf(%doT.DataOrder())", Props: []string{"C09", "C16"}, Why: "both operands are flattened by Reshape, which follows each tensor's own data order: they must share one, or the second is copied into a tensor built in the first's order (finding 68b)"},
 	{Rule: "L2", Func: "tensor.(StdEng).Dot", Site: "$r.Inner(", Goal: "((%reuse == nil) && (%incr == nil))", Props: []string{"C09", "C07"}, Why: "the vector inner product is returned as a new scalar tensor: a reuse or increment destination would be silently ignored, so it is refused (finding 75)"},
 	{Rule: "L2", Func: "tensor.(StdEng).Dot", Site: ".TensorMul(", Goal: "(%incr == nil)", Props: []string{"C09", "C07"}, Why: "the rank >= 3 contraction builds its own result and only copies it into a reuse tensor: an increment destination would be silently ignored, so it is refused (finding 75)"},
 	{Rule: "L1", Func: "tensor.(StdEng).RepeatReuse", Site: "$r.denseRepeat(", Goal: "(%ok && $reuse.Shape().Eq(%newShape))", Props: []string{"C10", "C13"}, Why: "a reuse destination is accepted only when its shape is the computed result shape: the repeat fills it by the result's geometry, and the returned tensor must have the shape the shape-only calculator predicts"},
